@@ -18,9 +18,9 @@ REQUIRED = ["sql_refused_loading", "sql_refused_failed", "fragment_refused_loadi
             "auto_meets_dead_peer", "readyz_200", "readyz_503", "readyz_503_draining",
             "env:LoadDone", "env:LoadFail", "env:Resolve", "env:Tick", "env:ProbeUp", "env:ProbeDown", "env:PeerDies", "env:Drain"]
 SIZES = {
-    "quick": dict(eps=EPS, sizes_mc=[0, 1, 48], sizes_emit=[0, 1, 48], mutants=MUTANTS, per_state=7, walks=60, walk_depth=16, jobs=6),
-    "thorough": dict(eps=EPS, sizes_mc=[0, 1, 48, 4097], sizes_emit=[0, 1, 48, 4097], mutants=MUTANTS, per_state=60, walks=1500, walk_depth=24,
-                     jobs=8, npeers_mc=3),
+    "quick": dict(eps=EPS, sizes_mc=[0, 1], sizes_mut=[1], sizes_emit=[0, 1, 48], mutants=MUTANTS, per_state=4, walks=60, walk_depth=16, jobs=6),
+    "thorough": dict(eps=EPS, sizes_mc=[0, 1, 48, 4097], sizes_mut=[0, 1], sizes_emit=[0, 1, 48, 4097], mutants=MUTANTS, per_state=60, walks=1500,
+                     walk_depth=24, jobs=8, npeers_mc=3),
 }
 WHAT = "C35 front door"
 
@@ -126,7 +126,7 @@ def selftest(ctx):
                any(clause in v["case"]["reject"].get("clauses", []) for v in c1.violations))
     # 3. the model rejects every design mutant
     for m in MUTANTS:
-        r = fd.model_check(ctx, m, eps=EPS, sizes=[0, 1], mutant=m)
+        r = fd.model_check(ctx, m, workers=1, eps=fd.MUTANT_EPS[m], sizes=[0, 1], mutant=m)
         cl = sorted({c for k, d in r.prints if k == "VIOLATED" for c in d["clauses"]})
         expect(f"design mutant {m} violates the contract ({cl})", r.violated == "Contract" and bool(cl))
     print("selftest C35:", "all corruptions detected" if ok else "FAILED")
